@@ -50,6 +50,10 @@ pub static TABLE: Table = Table {
 
 /// log alloc/dealloc events (off during start-up and for the probe's own noise)
 pub static LOG: AtomicBool = AtomicBool::new(false);
+/// fill a block with 0xDE when it is freed (before Dlmalloc gets it back): a correct program never
+/// reads freed memory, a use after free that the protocol points do not announce reads garbage and
+/// shows up as a wrong value / mismatching layout / lost flag instead of going unnoticed
+pub static POISON: AtomicBool = AtomicBool::new(true);
 
 #[inline]
 fn hash(p: usize) -> usize {
@@ -186,8 +190,8 @@ impl CountingAlloc {
         }
     }
 
-    /// true: block was live, go on and free it
-    fn unrecord(&self, p: *mut u8, layout: Layout, how: &str) -> bool {
+    /// Some(recorded size): block was live, go on and free it
+    fn unrecord(&self, p: *mut u8, layout: Layout, how: &str) -> Option<usize> {
         match TABLE.remove(p as usize) {
             None => {
                 TABLE.badfree.fetch_add(1, Ordering::SeqCst);
@@ -197,7 +201,7 @@ impl CountingAlloc {
                     .u("sz", layout.size() as u64)
                     .u("al", layout.align() as u64)
                     .emit();
-                false
+                None
             }
             Some(e) => {
                 TABLE.live.fetch_sub(1, Ordering::Relaxed);
@@ -221,7 +225,7 @@ impl CountingAlloc {
                         .u("atid", e.tid as u64)
                         .emit();
                 }
-                true
+                Some(e.size)
             }
         }
     }
@@ -235,7 +239,10 @@ unsafe impl GlobalAlloc for CountingAlloc {
     }
 
     unsafe fn dealloc(&self, ptr: *mut u8, layout: Layout) {
-        if self.unrecord(ptr, layout, "dealloc") {
+        if let Some(sz) = self.unrecord(ptr, layout, "dealloc") {
+            if POISON.load(Ordering::Relaxed) {
+                core::ptr::write_bytes(ptr, 0xDE, sz);
+            }
             self.inner.lock().free(ptr);
         }
     }
@@ -247,7 +254,7 @@ unsafe impl GlobalAlloc for CountingAlloc {
     }
 
     unsafe fn realloc(&self, ptr: *mut u8, layout: Layout, new_size: usize) -> *mut u8 {
-        if !self.unrecord(ptr, layout, "dealloc") {
+        if self.unrecord(ptr, layout, "dealloc").is_none() {
             return core::ptr::null_mut();
         }
         let p = self.inner.lock().realloc(ptr, layout.size(), layout.align(), new_size);
